@@ -430,6 +430,22 @@ func (c *FnCtx) assignTo(env *Env, lhs ast.Expr, v Val, define bool, _ types.Typ
 	if v.Loc != nil {
 		v = Val{T: env.term(v, lhs.Pos()), GoT: v.GoT}
 	}
+	// a store to a field that external (opaque) struct types do not model is not observable: skip it
+	if se, ok := lhs.(*ast.SelectorExpr); ok && len(loc.Path) > 0 && loc.Path[len(loc.Path)-1].Kind == "field" {
+		if bt := env.typeOf(se.X); bt != nil {
+			t := bt
+			if p, isP := t.Underlying().(*types.Pointer); isP {
+				t = p.Elem()
+			}
+			bs := c.eng.Sorts.SortOf(t)
+			if bsi := c.eng.Sorts.Info(bs); bsi != nil && bsi.Kind == KStruct && len(bsi.Fields) > 0 && bsi.Fields[0].Name == "$id" {
+				if _, _, has := c.eng.Sorts.field(Term{"x", bs}, se.Sel.Name); !has {
+					c.noteOnce("store to field " + se.Sel.Name + " of external type " + bs + " is not modelled (ignored)")
+					return
+				}
+			}
+		}
+	}
 	v = env.convertVal(v, v.GoT, lt, lhs.Pos())
 	// safety and frame obligations along the path
 	c.checkWrite(env, lhs, loc)
